@@ -55,7 +55,12 @@ def run(ctx) -> None:
     _sink = ctx.rule("C03/_shared-not-owned", "(rows of the shared bookkeeping contract that C03 does not own)", floor=0)
     n0 = len(ctx.instances)
     RSC = ctx.rule("C03/non-recursive-scope", "a non-recursive watch reports the root and its direct children only: no kernel watch is installed by the reader on a path where the recursive flag is false (instances shared with C02: otherwise changes inside a sub-directory are reported, outside the watched scope)", floor=2)
-    check_rows(ctx, _sink, RB, _sink, RB, RSC, _sink)
+    RNW = ctx.rule(
+        "C03/directories-in-scope-are-watched",
+        "completeness needs a kernel watch on every directory in scope: the root and (recursive) every directory of the initial walk, every directory created under a recursive watch together with what it already contains, every directory that arrives by a move -- each ends its record's path as a key of the watch map through a real add-watch, or the add-watch failed because it vanished (instances shared with C02: changes inside a directory without a watch produce no event at all)",
+        floor=5,
+    )
+    check_rows(ctx, RNW, RB, RNW, RB, RSC, RNW)
     ctx.instances[n0:] = [i for i in ctx.instances[n0:] if i.rule != _sink]
     del ctx.rules[_sink], ctx.floors[_sink]
     ctx.assumptions += [
